@@ -62,7 +62,8 @@ def domain_assignments(rng, t):
         out += [('value', rng.choice(['c', 'a\nb', '', 'x\n\ny', 'l1\nl2\nl3', 'p\r\n\r\nq', 'x\r\r\n\r\r\ny', 'u\r\r\nv', 'xy\nz', 'x\nyz'])), ('indent', rng.choice(['', '  ', '\t', '    ']))]
         out += [('raw_text', models.BlockComment.from_value(rng.choice(['z', 'p\nq']), indent=rng.choice(['', '  '])).raw_text)]
     elif n == 'InlineComment':
-        out += [('value', rng.choice(['', 'n', 'a;b', 'x  y']))]
+        out += [('value', rng.choice(['', 'n', 'a;b', 'x  y', 'note  ', 'tab\t', 'a ; b ', ';x', 'done \u3000']))]
+        out += [('raw_text', rng.choice([';', '; padded  ', ';;x', ';\tt']))]
     elif n == 'Date':
         out += [('value', datetime.date(rng.randrange(1, 9999), rng.randrange(1, 13), rng.randrange(1, 29)))]
         if rng.random() < 0.25:    # every datetime.date is in the domain, also one that carries a time of day
